@@ -2,15 +2,41 @@
 //! reached (arrays by value / by reference / as views, datasets, datasets with `CountedTargets`,
 //! slices) is a numbered *form*; the property promises the same value through each of them.
 //! This file only *calls* linfa; oracles and generators stay in `c05.rs`.
-use linfa::dataset::{CountedTargets, Label};
+use linfa::dataset::{AsTargetsMut, CountedTargets, Label};
 use linfa::prelude::*;
-use ndarray::{Array1, Array2, ArrayView1};
+use ndarray::{s, Array1, Array2, ArrayView1, ShapeBuilder};
 use std::fmt::Display;
 
 type Res<T> = linfa::error::Result<T>;
 
 fn recs(n: usize) -> Array2<f64> {
     Array2::from_shape_fn((n, 1), |(i, _)| i as f64)
+}
+
+/// memory layouts: an array of twice the length whose even positions carry `v` (the odd ones carry
+/// other elements of `v`), to be viewed with stride 2 ...
+pub fn interleaved<T: Clone>(v: &[T]) -> Array1<T> {
+    let n = v.len();
+    Array1::from((0..2 * n).map(|i| if i % 2 == 0 { v[i / 2].clone() } else { v[(i / 2 + 1) % n].clone() }).collect::<Vec<T>>())
+}
+/// ... `v` backwards, to be viewed with stride -1 ...
+pub fn reversed<T: Clone>(v: &[T]) -> Array1<T> {
+    Array1::from(v.iter().rev().cloned().collect::<Vec<T>>())
+}
+/// ... and an n x 2 row-major matrix whose first column is `v` (a column view has stride 2)
+pub fn two_cols<T: Clone>(v: &[T]) -> Array2<T> {
+    let n = v.len();
+    Array2::from_shape_fn((n, 2), |(i, j)| if j == 0 { v[i].clone() } else { v[(i + 1) % n].clone() })
+}
+/// a matrix in column-major (Fortran) order
+pub fn f_order<F: Clone>(a: &Array2<F>) -> Array2<F> {
+    let (n, p) = a.dim();
+    Array2::from_shape_fn((n, p).f(), |(i, j)| a[(i, j)].clone())
+}
+/// a matrix of twice the rows and columns whose even rows / columns carry `a`
+pub fn padded<F: Clone>(a: &Array2<F>) -> Array2<F> {
+    let (n, p) = a.dim();
+    Array2::from_shape_fn((2 * n, 2 * p), |(i, j)| if i % 2 == 0 && j % 2 == 0 { a[(i / 2, j / 2)].clone() } else { a[((i / 2 + 1) % n, (j / 2 + 1) % p)].clone() })
 }
 
 /// labels for which a counted dataset can also be produced by `DatasetBase::with_labels`
@@ -47,7 +73,7 @@ impl CmLabel for &'static str {
 impl CmLabel for String {}
 
 
-pub const CM_FORMS: usize = 16;
+pub const CM_FORMS: usize = 21;
 pub const CM_FORM_NAMES: [&str; CM_FORMS] = [
     "arr.cm(&arr)",
     "arr.cm(arr)",
@@ -65,6 +91,11 @@ pub const CM_FORM_NAMES: [&str; CM_FORMS] = [
     "with_labels_ds.cm(&arr)",
     "view.cm(&dsview)",
     "counted_ds.cm(&counted_ds)",
+    "strided.cm(&strided)",
+    "reversed.cm(&arr)",
+    "arr.cm(&reversed)",
+    "colds.cm(&arr)",
+    "arr.cm(&colds)",
 ];
 
 /// `prediction.confusion_matrix(ground_truth)` through calling form `form`
@@ -102,14 +133,45 @@ pub fn call_cm<L: CmLabel>(form: usize, pred: &[L], truth: &[L]) -> Res<Confusio
             p.view().confusion_matrix(&b)
         }
         15 => cds(&p).confusion_matrix(&cds(&t)),
+        // memory layouts other than the contiguous one: every-other-element views, reversed views,
+        // a column of a row-major matrix as the targets of a dataset
+        16 => {
+            let (pi, ti) = (interleaved(pred), interleaved(truth));
+            pi.slice(s![..;2]).confusion_matrix(ti.slice(s![..;2]))
+        }
+        17 => {
+            let pr = reversed(pred);
+            pr.slice(s![..;-1]).confusion_matrix(&t)
+        }
+        18 => {
+            let tr = reversed(truth);
+            p.confusion_matrix(tr.slice(s![..;-1]))
+        }
+        19 => {
+            let (pc, r1) = (two_cols(pred), recs(p.len()));
+            DatasetBase::new(r1.view(), pc.column(0)).confusion_matrix(&t)
+        }
+        20 => {
+            let (tc, r2) = (two_cols(truth), recs(t.len()));
+            p.confusion_matrix(&DatasetBase::new(r2.view(), tc.column(0)))
+        }
         _ => unreachable!("cm form"),
     }
 }
 
+/// a `CountedTargets` whose label counts were taken on `cached` and whose targets were then
+/// overwritten with `pred` through `as_targets_mut` (the counts are not refreshed): the receiver's
+/// `Labels::label_set` is the label set of `cached`, not of the data
+pub fn call_cm_stale(cached: &[usize], pred: &[usize], truth: &[usize]) -> Res<ConfusionMatrix<usize>> {
+    let mut ct = CountedTargets::new(Array1::from(cached.to_vec()));
+    ct.as_targets_mut().assign(&Array1::from(pred.to_vec()));
+    ct.confusion_matrix(&Array1::from(truth.to_vec()))
+}
+
 // ------------------------------------------------------------------ ROC / log-loss
 
-pub const BIN_FORMS: usize = 5;
-pub const BIN_FORM_NAMES: [&str; BIN_FORMS] = ["slice", "array", "view", "dataset", "dataset_views"];
+pub const BIN_FORMS: usize = 7;
+pub const BIN_FORM_NAMES: [&str; BIN_FORMS] = ["slice", "array", "view", "dataset", "dataset_views", "strided_view", "dataset_strided"];
 
 fn prs(s: &[f32]) -> Vec<Pr> {
     s.iter().map(|x| Pr::new_unchecked(*x)).collect()
@@ -133,6 +195,17 @@ pub fn call_roc(form: usize, s: &[f32], y: &[bool]) -> Res<linfa::metrics::Recei
             let (r1, r2) = (recs(s.len()), recs(y.len()));
             let a = DatasetBase::new(r1.view(), ArrayView1::from(&pr[..]));
             let b = DatasetBase::new(r2.view(), ArrayView1::from(y));
+            a.roc(&b)
+        }
+        5 => {
+            let pi = interleaved(&pr);
+            pi.slice(s![..;2]).roc(y)
+        }
+        6 => {
+            let (r1, r2) = (recs(s.len()), recs(y.len()));
+            let (pi, yi) = (interleaved(&pr), interleaved(y));
+            let a = DatasetBase::new(r1.view(), pi.slice(s![..;2]));
+            let b = DatasetBase::new(r2.view(), yi.slice(s![..;2]));
             a.roc(&b)
         }
         _ => unreachable!("roc form"),
@@ -159,6 +232,17 @@ pub fn call_log_loss(form: usize, s: &[f32], y: &[bool]) -> Res<f32> {
             let b = DatasetBase::new(r2.view(), ArrayView1::from(y));
             a.log_loss(&b)
         }
+        5 => {
+            let pi = interleaved(&pr);
+            pi.slice(s![..;2]).log_loss(y)
+        }
+        6 => {
+            let (r1, r2) = (recs(s.len()), recs(y.len()));
+            let (pi, yi) = (interleaved(&pr), interleaved(y));
+            let a = DatasetBase::new(r1.view(), pi.slice(s![..;2]));
+            let b = DatasetBase::new(r2.view(), yi.slice(s![..;2]));
+            a.log_loss(&b)
+        }
         _ => unreachable!("log_loss form"),
     }
 }
@@ -182,10 +266,10 @@ macro_rules! eight {
 }
 pub(crate) use eight;
 
-pub const REG1_FORMS: usize = 8;
-pub const REG1_FORM_NAMES: [&str; REG1_FORMS] = ["arr.m(&arr)", "arr.m(&ds)", "ds.m(&arr)", "ds.m(&ds)", "view.m(&view)", "col2.m(&col2)", "dsview.m(&view)", "arr.m(&&arr)"];
-pub const REGM_FORMS: usize = 6;
-pub const REGM_FORM_NAMES: [&str; REGM_FORMS] = ["arr2.m(&arr2)", "arr2.m(&ds)", "ds.m(&arr2)", "ds.m(&ds)", "view2.m(&view2)", "dsview.m(&dsview)"];
+pub const REG1_FORMS: usize = 10;
+pub const REG1_FORM_NAMES: [&str; REG1_FORMS] = ["arr.m(&arr)", "arr.m(&ds)", "ds.m(&arr)", "ds.m(&ds)", "view.m(&view)", "col2.m(&col2)", "dsview.m(&view)", "arr.m(&&arr)", "strided.m(&strided)", "colds.m(&reversed)"];
+pub const REGM_FORMS: usize = 8;
+pub const REGM_FORM_NAMES: [&str; REGM_FORMS] = ["arr2.m(&arr2)", "arr2.m(&ds)", "ds.m(&arr2)", "ds.m(&ds)", "view2.m(&view2)", "dsview.m(&dsview)", "forder2.m(&forder2)", "ds_strided2.m(&strided2)"];
 
 /// single target: `[metric] -> Option<F>`
 pub fn call_reg1<F: linfa::Float>(form: usize, a: &Array1<F>, b: &Array1<F>, g: &dyn Fn(&dyn Fn() -> Res<F>) -> Option<F>) -> Vec<Option<F>> {
@@ -232,6 +316,17 @@ pub fn call_reg1<F: linfa::Float>(form: usize, a: &Array1<F>, b: &Array1<F>, g: 
             let rb: &Array1<F> = b;
             eight!(g, a, &rb)
         }
+        8 => {
+            let (ai, bi) = (interleaved(a.as_slice().unwrap()), interleaved(b.as_slice().unwrap()));
+            let (va, vb) = (ai.slice(s![..;2]), bi.slice(s![..;2]));
+            eight!(g, va, &vb)
+        }
+        9 => {
+            let (ac, br, r) = (two_cols(a.as_slice().unwrap()), reversed(b.as_slice().unwrap()), rec());
+            let da = DatasetBase::new(r.view(), ac.column(0));
+            let vb = br.slice(s![..;-1]);
+            eight!(g, da, &vb)
+        }
         _ => unreachable!("reg1 form"),
     }
 }
@@ -265,14 +360,24 @@ pub fn call_regm<F: linfa::Float>(form: usize, a: &Array2<F>, b: &Array2<F>, g: 
             let db = DatasetBase::new(r2.view(), b.view());
             eight!(g, da, &db)
         }
+        6 => {
+            let (fa, fb) = (f_order(a), f_order(b));
+            eight!(g, fa, &fb)
+        }
+        7 => {
+            let (pa, pb, r) = (padded(a), padded(b), rec());
+            let da = DatasetBase::new(r.view(), pa.slice(s![..;2, ..;2]));
+            let vb = pb.slice(s![..;2, ..;2]);
+            eight!(g, da, &vb)
+        }
         _ => unreachable!("regm form"),
     }
 }
 
 // ------------------------------------------------------------------ silhouette
 
-pub const SIL_FORMS: usize = 5;
-pub const SIL_FORM_NAMES: [&str; SIL_FORMS] = ["ds<usize>", "ds<bool|usize>", "ds<String>", "counted_ds", "dsview"];
+pub const SIL_FORMS: usize = 7;
+pub const SIL_FORM_NAMES: [&str; SIL_FORMS] = ["ds<usize>", "ds<bool|usize>", "ds<String>", "counted_ds", "dsview", "forder_records", "strided_views"];
 
 /// `silhouette_score` through label type / container `form`; labels are given as small naturals
 pub fn call_sil<F: linfa::Float>(form: usize, rec: Array2<F>, l: &[usize]) -> Res<F> {
@@ -299,6 +404,42 @@ pub fn call_sil<F: linfa::Float>(form: usize, rec: Array2<F>, l: &[usize]) -> Re
             let t = Array1::from(l.to_vec());
             DatasetBase::new(rec.view(), t.view()).silhouette_score()
         }
+        5 => Dataset::new(f_order(&rec), Array1::from(l.to_vec())).silhouette_score(),
+        6 => {
+            let (pr, ti) = (padded(&rec), interleaved(l));
+            DatasetBase::new(pr.slice(s![..;2, ..;2]), ti.slice(s![..;2])).silhouette_score()
+        }
         _ => unreachable!("sil form"),
+    }
+}
+
+// ------------------------------------------------------------------ Pearson
+
+pub const PEARSON_FORMS: usize = 5;
+pub const PEARSON_FORM_NAMES: [&str; PEARSON_FORMS] = ["owned", "forder", "strided_view", "dataset_with_targets", "with_p_value"];
+
+/// `pearson_correlation` of the records through memory layout / container `form`
+pub fn call_pearson<F: linfa::Float>(form: usize, rec: Array2<F>) -> Vec<F> {
+    match form {
+        0 => DatasetBase::from(rec).pearson_correlation().get_coeffs().to_vec(),
+        1 => DatasetBase::from(f_order(&rec)).pearson_correlation().get_coeffs().to_vec(),
+        2 => {
+            let pr = padded(&rec);
+            DatasetBase::from(pr.slice(s![..;2, ..;2])).pearson_correlation().get_coeffs().to_vec()
+        }
+        3 => {
+            let n = rec.nrows();
+            Dataset::new(rec, Array1::from((0..n).collect::<Vec<usize>>())).pearson_correlation().get_coeffs().to_vec()
+        }
+        4 => {
+            // the coefficients of the p-value entry point (the p-values themselves are a random
+            // resampling and not in the statement; they must be frequencies k/3 in [0, 1])
+            let p = rec.ncols();
+            let c = DatasetBase::from(rec).pearson_correlation_with_p_value(3);
+            let ok = c.get_p_values().map_or(p < 2, |pv| pv.iter().all(|v| { let k = v.to_f64().unwrap() * 3.0; (0.0..=3.0).contains(&k) && (k - k.round()).abs() < 1e-4 }));
+            assert!(ok, "p-values are not frequencies of 3 resamplings: {:?}", c.get_p_values());
+            c.get_coeffs().to_vec()
+        }
+        _ => unreachable!("pearson form"),
     }
 }
